@@ -167,6 +167,11 @@ def run_case(case, ctx):
                 _drive(slicer, data)
                 n_eval += 1
                 n_nontriv += 1  # every lattice value is a multiple/half-multiple of the width: sits on edges by construction
+                if n <= 3 and w in (0.1, 0.7, 0.3):
+                    # the same observations stored in single precision (edges that are not exact in that dtype)
+                    _drive(slicer, data.astype(np.float32))
+                    n_eval += 1
+                    n_nontriv += 1
         ctx.nontrivial = True
         ctx.sig = f"lattice:{cfg}"
     else:
@@ -201,6 +206,9 @@ def run_case(case, ctx):
                 # a last / first chunk of 50 .. n_points-1 observations (kept under the documented default min_n_points = 50)
                 keep = (n // cfg["n_points"]) * cfg["n_points"] + int(rng.integers(50, cfg["n_points"]))
                 data = data[: min(keep, n)] if keep <= n else data
+        if int(case["sub"]) % 4 == 1:
+            data = data.astype(np.float32)
+            ctx.cls("dtype", "float32")
         ctx.cls("slicer", cfg["slicer"])
         ctx.cls("order", order)
         ctx.sample = {"kind": "random", "cfg": cfg, "n": n, "order": order, "decimals": dec, "head": data[:6].tolist()}
